@@ -671,7 +671,7 @@ def check_C04(ctx):
     ctx.assumptions += ["Blake2b-256 is uninterpreted in TLA+; hashlib evaluates it on the spec-extracted original body span / datum bytes",
                         "added witnesses are recomputed by the harness with make_vkey_witness / make_icarus_bootstrap_witness over the reported hash (Ed25519 is deterministic)",
                         "elements of a TOUCHED key-witness field are compared as data (the statement protects untouched fields byte for byte)",
-                        "read-only block views (FixedTransactionBody, FixedBlock) of DESIGN section 3 C04 are not exercised yet"]
+                        "read-only views (FixedTransactionBody alone, inside FixedBlock / FixedVersionedBlock): original bytes = span in the input, hash = H(span); FixedBlock.block_hash() is not judged (no listed property speaks about it)"]
     if ctx.replay:
         run = ctx.run_replay()
         return
